@@ -1132,6 +1132,8 @@ class Recon:
         if kws and not args:
             return S.call("construct:" + ct.name, [], kws)
         rd = ("read", ct.name, count, src, site)
+        if ct.is_enum:
+            S.ENUM_TYPES.add(ct.name)  # Enum(value): the evaluator maps it to the value itself
         if ct.is_struct and count == S.C(1):
             return ("inst", ct.name, rd, ct.layout_key)
         return rd
